@@ -5,7 +5,7 @@ CONSTANTS
   Slot2Places = {"direct"}
   Slot2Sigs = {"none", "own"}
   RIds = {"r1", "rX", "a1"}
-  RSigs = {"none", "att", "attIdp", "gen", "lifted"}
+  RSigs = {"none", "att", "attIdp", "gen", "lifted", "reloc", "malformed"}
   KidSigs = {"none", "own", "copied", "att", "attIdp"}
 INVARIANTS TypeOK InvC01 InvC02 InvC04 InvC07 InvSum OnlyVerifiedReachValidate RunAgrees Emit
 PROPERTIES Frozen Terminates
